@@ -18,6 +18,11 @@
                     terminator because terminators define nothing)
      wf_phi_preds   the input blocks of a phi are pairwise distinct and are exactly the
                     predecessors of its block
+                    (predecessor BLOCKS, not edges: ppci keys Phi.inputs by block, so a block
+                    reached by both edges of `cjmp ? J : J` has ONE predecessor and its phis ONE
+                    input; merging two distinct incoming values into such a shape — e.g. a broken
+                    CleanPass.remove_empty_blocks — loses a value but stays well-formed: that is a
+                    semantic defect, property C02, not an ill-formedness C03 can see)
      wf_types       operand / result types agree per instruction kind
    The executable checker [wf_function_b] is in Model/IRWfCheck.v; Proofs/C03_wf.v proves
    wf_function_b m f = true -> wf_function m f.  No ppci structure is used here. *)
